@@ -151,12 +151,15 @@ Proof. exact hist_tail_agrees. Qed.
    load_effective_config calls it unconditionally (top level of the body, no return / ? before it) with the
    ApiKeySource::Env names of config.provider; the per-request resolution, SessionEngine::new and the doctor load; and
    EVERY subprocess spawn site of rip-tools and ripd (Command::new / CommandBuilder::new) runs `for name in
-   secret_env_names() { cmd.env_remove(name) }` unconditionally, before the call's own env and before the spawn. *)
+   secret_env_names() { cmd.env_remove(name) }` unconditionally, before the call's own env and before the spawn; and no
+   string literal shaped like a credential variable (.._KEY, _TOKEN, _SECRET, _PASSWORD, _CREDENTIALS) occurs in ripd, rip-cli
+   or rip-tools outside that fixed list (a new fallback variable the spawn path would not know). *)
 Theorem c19_code_spawn_path_as_modelled :
   sf_fixed_names gen_spawn_facts = [E_API_KEY; E_OPENAI; E_OPENROUTER]
   /\ sf_names_fresh gen_spawn_facts = true /\ sf_registry_grows_only gen_spawn_facts = true
   /\ sf_load_registers gen_spawn_facts = true /\ sf_loaders_found gen_spawn_facts = true
-  /\ 1 <= sf_spawn_sites gen_spawn_facts /\ sf_spawn_sites gen_spawn_facts = sf_spawn_sites_stripping gen_spawn_facts.
+  /\ 1 <= sf_spawn_sites gen_spawn_facts /\ sf_spawn_sites gen_spawn_facts = sf_spawn_sites_stripping gen_spawn_facts
+  /\ sf_unlisted_key_vars gen_spawn_facts = 0.
 Proof. exact gen_spawn_path_as_modelled. Qed.
 Print Assumptions c19_code_spawn_path_as_modelled.
 
